@@ -1,0 +1,73 @@
+//go:build verif
+
+// Contracts for VBFT participant selection (property C40), read by /verif/gocv.
+package vbft
+
+//@ func checkCalcEndorserOrCommitter
+//@   inline
+
+// pidx: the position-table index selected by 16 bits of the seed starting at bit k
+//@ spec opaque pidx(vrf vconfig.VRFValue, n uint32, k uint32) uint32 = (((ite(k/8+1 < 64, uint32(vrf[k/8+1]), uint32(vrf[0])) & ((uint32(1) << (8 + k%8)) - 1)) << (8 - k%8)) + (uint32(vrf[k/8]) >> (k%8))) % n
+
+//@ func calcParticipant
+//@   property C40
+//@   reveal pidx
+//@   requires len(dposTable) > 0 && len(dposTable) <= 0xffffffff
+//@   ensures k >= 512 ==> result == 4294967295
+//@   ensures k < 512 ==> pidx(vrf, uint32(len(dposTable)), k) < uint32(len(dposTable)) && result == dposTable[pidx(vrf, uint32(len(dposTable)), k)]
+
+//@ func calcParticipantPeers
+//@   property C40
+//@   postmode per-return
+//@   requires cfg != nil && chain != nil
+//@   requires len(chain.PosTable) > 0 && len(chain.PosTable) <= 0xffffffff
+//@   requires 0 <= start && start <= 512
+//@   ghost var kk ArrU64U32
+//@   set after "peers = append(peers, peerId)" : kk := upd(kk, len(peers)-1, uint32(i))
+//@   -- no duplicates
+//@   ensures forall a int, b int :: 0 <= a && a < b && b < len(result) ==> result[a] != result[b]
+//@   -- drawn from the position table
+//@   ensures forall a int :: 0 <= a && a < len(result) ==> exists j int :: 0 <= j && j < len(chain.PosTable) && result[a] == chain.PosTable[j]
+//@   -- endorsers and committers exclude the leading C proposers
+//@   ensures (end == 272 || end == 512) ==> forall a int, p int :: 0 <= a && a < len(result) && 0 <= p && p < len(cfg.Proposers) && uint64(p) < uint64(chain.C) ==> result[a] != cfg.Proposers[p]
+//@   -- size: a non-empty result has reached N members, or (proposers) more than C, or (endorsers/committers) more than 2C
+//@   ensures len(result) != 0 ==> (uint32(len(result)) >= chain.N || (end == 32 && uint32(len(result)) > chain.C) || ((end == 272 || end == 512) && uint32(len(result)) > chain.C*2))
+//@   assert after "cnt++" : forall a int, b int :: 0 <= a && a < b && b < len(peers) ==> peers[a] != peers[b]
+//@   assert after "cnt++" : forall a int :: 0 <= a && a < len(peers) ==> kk[a] < 512 && pidx(cfg.Vrf, uint32(len(chain.PosTable)), kk[a]) < uint32(len(chain.PosTable)) && peers[a] == chain.PosTable[pidx(cfg.Vrf, uint32(len(chain.PosTable)), kk[a])]
+//@   assert after "cnt++" : (end == 272 || end == 512) ==> forall a int :: 0 <= a && a < len(peers) ==> !has(proposerMap, peers[a])
+//@   assert after "cnt++" : forall a int :: 0 <= a && a < len(peers) ==> exists j int :: 0 <= j && j < len(chain.PosTable) && peers[a] == chain.PosTable[j]
+//@   loop 2 invariant forall a int :: 0 <= a && a < len(peers) ==> exists j int :: 0 <= j && j < len(chain.PosTable) && peers[a] == chain.PosTable[j]
+//@   assert after loop 1 : forall p int :: 0 <= p && p < len(cfg.Proposers) && uint64(p) < uint64(chain.C) ==> has(proposerMap, cfg.Proposers[p])
+//@   loop 1 invariant forall q int :: 0 <= q && q < it1 ==> has(proposerMap, cfg.Proposers[q])
+//@   loop 1 invariant len(proposerMap) <= it1
+//@   loop 1 invariant !isnil(proposerMap) && !isnil(peerMap) && fresh(proposerMap) && fresh(peerMap) && proposerMap != peerMap
+//@   loop 1 invariant len(peers) == 0 && cnt == 0 && fresh(ref(peers))
+//@   loop 1 invariant len(peerMap) == 0
+//@   loop 2 modifies fresh
+//@   loop 2 invariant start <= i && i <= 512
+//@   loop 2 invariant !isnil(proposerMap) && !isnil(peerMap) && fresh(proposerMap) && fresh(peerMap) && proposerMap != peerMap
+//@   loop 2 invariant cnt == uint32(len(peers)) && len(peers) <= i - start && fresh(ref(peers))
+//@   loop 2 invariant forall a int :: 0 <= a && a < len(peers) ==> has(peerMap, peers[a])
+//@   loop 2 invariant forall a int, b int :: 0 <= a && a < b && b < len(peers) ==> peers[a] != peers[b]
+//@   loop 2 invariant forall a int :: 0 <= a && a < len(peers) ==> kk[a] < 512 && pidx(cfg.Vrf, uint32(len(chain.PosTable)), kk[a]) < uint32(len(chain.PosTable)) && peers[a] == chain.PosTable[pidx(cfg.Vrf, uint32(len(chain.PosTable)), kk[a])]
+//@   loop 2 invariant (end == 272 || end == 512) ==> forall a int :: 0 <= a && a < len(peers) ==> !has(proposerMap, peers[a])
+//@   loop 2 invariant (end == 272 || end == 512) ==> forall p int :: 0 <= p && p < len(cfg.Proposers) && uint64(p) < uint64(chain.C) ==> has(proposerMap, cfg.Proposers[p])
+//@   loop 2 invariant uint32(len(peers)) < chain.N || len(peers) == 0
+//@   loop 2 decreases 512 - i
+
+//@ func getParticipantSelectionSeed
+//@   trusted   -- encoding/json + sha512: assumed pure (reads the block, modifies nothing)
+
+//@ func (*Server).buildParticipantConfig
+//@   property C40
+//@   mode abstract
+//@   postmode per-return
+//@   requires chainCfg != nil && len(chainCfg.PosTable) > 0 && len(chainCfg.PosTable) <= 0xffffffff
+//@   requires chainCfg.C < 0x7fffffff
+//@   ensures err == nil ==> result != nil && uint32(len(result.Proposers)) == chainCfg.C + 1 && uint32(len(result.Endorsers)) >= 2*chainCfg.C && uint32(len(result.Committers)) >= 2*chainCfg.C
+//@   ensures err == nil ==> forall a int, b int :: 0 <= a && a < b && b < len(result.Proposers) ==> result.Proposers[a] != result.Proposers[b]
+//@   ensures err == nil ==> forall a int, b int :: 0 <= a && a < b && b < len(result.Endorsers) ==> result.Endorsers[a] != result.Endorsers[b]
+//@   ensures err == nil ==> forall a int, b int :: 0 <= a && a < b && b < len(result.Committers) ==> result.Committers[a] != result.Committers[b]
+//@   ensures err == nil ==> forall a int, p int :: 0 <= a && a < len(result.Endorsers) && 0 <= p && uint64(p) < uint64(chainCfg.C) ==> result.Endorsers[a] != result.Proposers[p]
+//@   ensures err == nil ==> forall a int, p int :: 0 <= a && a < len(result.Committers) && 0 <= p && uint64(p) < uint64(chainCfg.C) ==> result.Committers[a] != result.Proposers[p]
+//@   ensures err == nil ==> forall a int :: 0 <= a && a < len(result.Proposers) ==> exists j int :: 0 <= j && j < len(chainCfg.PosTable) && result.Proposers[a] == chainCfg.PosTable[j]
